@@ -739,7 +739,7 @@ func init() {
 		ReuseModes: []proto.Mode{memoMode},
 		Chunks:     func(c *drv.Ctx) int { return c.Pick(1, 8) },
 		Opts: func(c *drv.Ctx) lab.CollectOpts {
-			return lab.CollectOpts{N: c.Pick(72, 160), Profiles: []string{"switchy", "plain", "switchy", "liney", "deep", "actiony", "switchy", "backtracky"},
+			return lab.CollectOpts{N: c.Pick(96, 192), Profiles: []string{"switchy", "plain", "switchy", "liney", "deep", "actiony", "switchy", "backtracky"},
 				Inputs: c.Pick(12, 20), Hostile: true, Long: true, MaxRune: true}
 		},
 		Modes: func(c *drv.Ctx, pt *Point, v lab.Variant) []proto.Mode {
